@@ -99,6 +99,9 @@ func backendProp(b backendSpec, meaning string) propFunc {
 			c.runExtentOrder(r, "array.extentorder", inPkgs("glsl"))
 			r.floor("array.extentorder", 1)
 		}
+		r.Clauses = append(r.Clauses, shallowWalkerClause)
+		c.runShallowWalker(r, "walker.shallow", inPkgs(b.Name), shallowWalkerExceptions)
+		r.floor("walker.shallow", 2)
 		r.Clauses = append(r.Clauses, argsRoleClause)
 		c.runArgsNameRole(r, "args.namerole", inPkgs(b.Name))
 		r.floor("args.namerole", 5)
